@@ -33,7 +33,7 @@ MANIFEST = dict(
 )
 
 IMPORTS = ['Coq.Lists.List', 'Coq.NArith.NArith', 'Coq.Bool.Bool', 'SV.KV.KvBase', 'SV.KV.KvLex', 'SV.KV.KvParse',
-           'SV.KV.KvSer', 'SV.KV.KvSym', 'SV.Gen.KVSer_gen']
+           'SV.KV.KvSer', 'SV.KV.KvSym', 'SV.KV.KvExport', 'SV.Gen.KVSer_gen']
 IMPORTS_REFINE = ['Coq.Lists.List', 'Coq.NArith.NArith', 'Coq.Bool.Bool', 'SV.Text.Str', 'SV.Text.Prog', 'SV.Text.Tokenizer',
                   'SV.Text.TokGen', 'SV.KV.KvBase', 'SV.KV.KvLex', 'SV.KV.KvParse', 'SV.KV.KvRefine', 'SV.Gen.KVSer_gen']
 PRE = '''Import ListNotations. Open Scope N_scope.
@@ -64,6 +64,8 @@ Definition parse_case (c : ((str * N) * list (str * bool)) * ((list kv + kv) + N
 Definition ser_case (c : ((str * bool * str) * list kv) * str) : bool :=
   let '(i, b, s) := fst (fst c) in
   str_eqb (serialise_doc gen_sercfg gen_escfg {| o_indent := i; o_indent_braces := b; o_start := s |} (snd (fst c))) (snd c).
+Definition exp_case (c : list kv * str) : bool := str_eqb (export_doc gen_expcfg gen_escfg (fst c)) (snd c).
+Definition exp_node_case (c : kv * str) : bool := str_eqb (export_node gen_expcfg gen_escfg (fst c)) (snd c).
 Definition ser_node_case (c : ((str * bool * str) * kv) * str) : bool :=
   let '(i, b, s) := fst (fst c) in
   str_eqb (serialise_node gen_sercfg gen_escfg {| o_indent := i; o_indent_braces := b; o_start := s |} (snd (fst c))) (snd c).
@@ -282,7 +284,10 @@ def corr_serialise(ck: Ck):
         if named:
             doc = doc[:1]
         text = impl_serialise(doc, opts, named)
-        cases.append((doc, opts, named, text))
+        with warnings.catch_warnings():
+            warnings.simplefilter('ignore')
+            xtext = ''.join((build(doc[0]) if named else build_root(doc)).export())
+        cases.append((doc, opts, named, text, xtext))
         ck.count('serialise_correspondence_cases')
         nodes, depth, special = tree_stats(doc)
         ck.hist('ser_corr_nodes', min(nodes, 64) // 8 * 8)
@@ -297,26 +302,37 @@ def corr_serialise(ck: Ck):
             part = sub[lo:lo + 100]
             lit = coq_list(
                 f'((({coq_chars(o["indent"])}, {coq_bool(o["indent_braces"])}, {coq_chars(o["start_indent"])}), '
-                f'{coq_tree(d[0]) if named else coq_doc(d)}), {coq_chars(t)})' for _, (d, o, _n, t) in part)
+                f'{coq_tree(d[0]) if named else coq_doc(d)}), {coq_chars(t)})' for _, (d, o, _n, t, _x) in part)
             fn = 'ser_node_case' if named else 'ser_case'
             jobs.append(('ser', f'bad_idx {fn} 0 {lit}'))
-            parts.append(part)
+            parts.append(('serialise', part))
+            lit = coq_list(f'({coq_tree(d[0]) if named else coq_doc(d)}, {coq_chars(x)})' for _, (d, o, _n, _t, x) in part)
+            jobs.append(('exp', f'bad_idx {"exp_node_case" if named else "exp_case"} 0 {lit}'))
+            parts.append(('export', part))
     return jobs, lambda results: finish_serialise(ck, cases, parts, results)
 
 
 def finish_serialise(ck: Ck, cases, parts, results) -> None:
     bad: list[int] = []
-    for part, vals in zip(parts, results):
+    xbad: list[int] = []
+    for (which, part), vals in zip(parts, results):
         if vals is None:
-            ck.obligation('correspondence:serialise', False, 'model could not be evaluated')
-            ck.tie_broken.append('correspondence serialise: model evaluation failed')
+            ck.obligation(f'correspondence:{which}', False, 'model could not be evaluated')
+            ck.tie_broken.append(f'correspondence {which}: model evaluation failed')
             return
-        bad += [part[i][0] for i in parse_coq_N_list(vals[0])]
+        (bad if which == 'serialise' else xbad).extend(part[i][0] for i in parse_coq_N_list(vals[0]))
+    ck.obligation('correspondence:export', not xbad,
+                  f'{len(cases)} trees, export template interpreter (vm_compute) vs "".join(Keyvalues.export()), exact '
+                  f'text: {len(xbad)} disagreements')
+    if xbad:
+        d, o, nm, t, x = min((cases[i] for i in xbad), key=lambda c: len(c[4]))
+        ck.tie_broken.append('correspondence export (KV/KvExport.v over Gen/KVSer_gen.v vs Keyvalues.export)')
+        ck.extra['export_disagreement'] = {'doc': d, 'named': nm, 'impl_text': x}
     ck.obligation('correspondence:serialise', not bad,
                   f'{len(cases)} trees x options, template interpreter (vm_compute) vs Keyvalues.serialise, exact text: '
                   f'{len(bad)} disagreements')
     if bad:
-        d, o, nm, t = min((cases[i] for i in bad), key=lambda c: len(c[3]))
+        d, o, nm, t, _x = min((cases[i] for i in bad), key=lambda c: len(c[3]))
         ck.tie_broken.append('correspondence serialise (KV/KvSer.v over Gen/KVSer_gen.v vs Keyvalues.serialise)')
         ck.extra['serialise_disagreement'] = {'doc': d, 'opts': o, 'named': nm, 'impl_text': t}
 
@@ -836,6 +852,12 @@ def run(ck: Ck) -> None:
             'cfg_ok_and_esc_ok_and_pcfg_ok(premises of kv_roundtrip)':
                 'cfg_ok gen_sercfg && esc_ok gen_escfg && pcfg_ok gen_parsecfg',
             'export_yields_have_no_raw_field': f'forallb {noraw} gen_export_yields',
+            'export_block_head_lexes_to_name_NL_brace_NL': 'xhead_ok gen_expcfg',
+            'export_block_tail_lexes_to_brace_NL': 'xtail_ok gen_expcfg',
+            'export_leaf_lexes_to_name_value_NL': 'xleaf_ok gen_expcfg',
+            'export_child_prefix_is_whitespace': 'xprefix_ok gen_expcfg',
+            'root_test_of_export_is_identity_with_None': 'xroot_test_ok gen_expcfg',
+            'xcfg_ok(premise of kv_export_roundtrip)': 'xcfg_ok gen_expcfg',
             'no_store_to_tree_in_writers': 'Nat.eqb (length gen_tree_stores) 0',
             'no_mutating_call_on_tree_in_writers': 'Nat.eqb (length gen_tree_mut_calls) 0',
         })
@@ -871,7 +893,8 @@ def run(ck: Ck) -> None:
                     'instance:parse_newline_key_test', 'instance:parse_newline_value_test'):
             ck.explain(pre)
     if any(k.startswith('export-roundtrip') for k in keys):
-        ck.explain('instance:export_yields_have_no_raw_field')
+        for pre in ('instance:export_', 'instance:root_test_of_export', 'instance:xcfg_ok'):
+            ck.explain(pre)
     if 'serialise-mutates-tree' in keys or 'export-mutates-tree' in keys:
         ck.explain('instance:no_store_to_tree')
         ck.explain('instance:no_mutating_call')
